@@ -51,14 +51,24 @@ TECHNIQUE = "property-based testing (Hypothesis) against an independent referenc
 LEVEL_TEXT = ("Exploration: thousands of generated gas-solution equilibria per run; every reported gas state is re-evaluated with an "
               "independent equation-of-state implementation (cubic, fugacity coefficients, fugacity = 10^SI, partial-pressure "
               "shares, fixed-pressure existence, EOS-based initial moles).  3-root (two-phase) states are skipped and counted.")
-FLOORS = {"quick": 300, "thorough": 3000}
+FLOORS = {"quick": 1000, "thorough": 10000}
 SHARDS = {"quick": 8, "thorough": 16}
-BUDGET = {"quick": 330, "thorough": 2200, "replay": 1}
+BUDGET = {"quick": 1200, "thorough": 12000, "replay": 1}      # cases per shard
+if os.environ.get("C19_DEV_SHARDS"):                            # development on a shared machine: fewer, longer shards
+    _k = int(os.environ["C19_DEV_SHARDS"])
+    BUDGET = {t: BUDGET[t] * SHARDS.get(t, 1) // _k for t in BUDGET}
+    SHARDS = {t: _k for t in SHARDS}
 
-TOL_PSUM = 1e-10      # partial pressures: shares of the total and sum (property)
+TOL_PSUM = 1e-6       # partial pressures: PR_P(i) vs (moles_i / total moles) P, relative to P (they stem from consecutive solver iterates)
+TOL_PSUM_EXACT = 1e-12  # sum of PR_P vs P
 TOL_EOS = 1e-4        # equation of state, relative (property)
 TOL_PHI = 1e-6        # fugacity coefficient (property)
-TOL_FUG = 1e-6        # 10^SI = phi p, relative (solver convergence 1e-12 leaves ample margin; probe: 1e-8)
+TOL_FUG = 1e-6        # 10^SI = phi p, relative
+TOL_EXIST = 1e-6      # fixed-pressure existence: sum of equilibrium partial pressures vs P, relative
+MOLE_FLOOR = 1e-25    # components with fewer moles than this are absent (the engine's own zero is MIN_TOTAL = 1e-30 mol)
+MOLE_SLACK_KGW = 5e-7  # absolute slack (mol per kg of water, at least one kg) on the total moles of gas wherever moles are compared with the
+                       # reported total pressure: the engine reports the pressure of its last EOS evaluation, the moles of the step after
+                       # it, and converges on absolute mass-balance residuals (H, O: relative to ~111 mol/kgw); observed <= 9e-8 mol
 LNPHI_LO, LNPHI_HI = math.log(0.01), math.log(85.0)      # documented clamp 0.01 .. 85
 
 # gas -> (elements it carries besides H and O)
@@ -71,7 +81,9 @@ DBS = {
     "phreeqc.dat": ["CO2(g)", "CH4(g)", "N2(g)", "O2(g)", "H2(g)", "H2S(g)", "NH3(g)", "H2O(g)",
                     "Mtg(g)", "Ntg(g)", "Oxg(g)", "Hdg(g)", "H2Sg(g)"],
     "pitzer.dat": ["CO2(g)", "H2O(g)", "Mtg(g)", "Ntg(g)", "Oxg(g)", "Hdg(g)", "H2Sg(g)"],
-    "wateq4f.dat": ["CO2(g)", "CH4(g)", "N2(g)", "O2(g)", "H2(g)", "H2S(g)", "NH3(g)", "H2O(g)"],
+    "wateq4f.dat": ["CO2(g)", "CH4(g)", "N2(g)", "O2(g)", "H2(g)", "H2S(g)", "NH3(g)", "H2O(g)"],       # no critical constants: ideal
+    # critical constants but no GAS_BINARY_PARAMETERS block: the documented built-in water-gas coefficients apply
+    "core10.dat": ["CO2(g)", "CH4(g)", "N2(g)", "O2(g)", "H2(g)", "H2S(g)", "NH3(g)", "H2O(g)"],
 }
 SOL_ELEMENTS = {"Na": 0.5, "K": 0.1, "Ca": 0.02, "Mg": 0.02, "Cl": 0.5, "S(6)": 0.02, "C(4)": 0.02}
 # templates of input-defined gases (phreeqc.dat only): aqueous species, element, log K text, (Tc, Pc, omega) to perturb
@@ -104,11 +116,31 @@ def psat_water(tc):
 
 
 # ------------------------------------------------------------------------------- generator
+TBUCKETS = [(0.0, 25.0), (25.0, 60.0), (60.0, 100.0), (100.0, 150.0), (150.0, 200.0)]
+EXTRA_SOL = {"Mtg(g)": "Mtg", "Ntg(g)": "Ntg", "Oxg(g)": "Oxg", "Hdg(g)": "Hdg", "H2Sg(g)": "Sg"}
+
+
+@st.composite
+def temperature(draw):
+    """0..200 C, the five ranges equally likely (st.floats alone concentrates on a few 'simple' values)"""
+    if draw(st.integers(0, 7)) == 0:
+        return 25.0
+    lo, hi = draw(st.sampled_from(TBUCKETS))
+    return float("%.4g" % (lo + (hi - lo) * draw(st.integers(0, 1000)) / 1000.0))
+
+
+@st.composite
+def pressure(draw, lo_dec=-2, hi_dec=2):
+    """log-uniform over the decades lo_dec..hi_dec+1 (atm), every decade equally likely"""
+    d = draw(st.integers(lo_dec, hi_dec))
+    return float("%.4g" % (10.0 ** (d + draw(st.integers(0, 1000)) / 1000.0)))
+
+
 @st.composite
 def case_strategy(draw):
     kind = draw(st.sampled_from(["gp", "gp", "gp", "gp", "equi"]))
-    db = draw(st.sampled_from(["phreeqc.dat", "phreeqc.dat", "phreeqc.dat", "pitzer.dat", "wateq4f.dat"]))
-    tc = draw(st.one_of(st.just(25.0), cg.uni(0.0, 200.0, 4)))
+    db = draw(st.sampled_from(["phreeqc.dat", "phreeqc.dat", "phreeqc.dat", "phreeqc.dat", "pitzer.dat", "wateq4f.dat", "core10.dat"]))
+    tc = draw(temperature())
     sol = draw(cg.simple_solution(1, elements=SOL_ELEMENTS, max_el=4, temp=False, charge=False))
     sol["temp"] = tc
     if draw(st.integers(0, 3)) == 0:
@@ -132,7 +164,7 @@ def case_strategy(draw):
     if kind == "equi":
         pool = [g for g in pool if g != "H2O(g)"]
         names = draw(st.lists(st.sampled_from(pool), min_size=1, max_size=3, unique=True))
-        parts["equi"] = [[n, draw(cg.uni(-3.0, 3.0, 4)), draw(cg.logu(1e-4, 10.0, 3))] for n in names]
+        parts["equi"] = [[n, float("%.4g" % math.log10(draw(pressure(-2, 2)))), draw(cg.logu(1e-4, 10.0, 3))] for n in names]
         parts["minerals"] = draw(st.sampled_from([[], [], ["Calcite"]]))
         return finish(parts)
     # ---- gas phase
@@ -142,34 +174,61 @@ def case_strategy(draw):
         taken = {CUSTOM[g["tpl"]][0] for g in custom}
         same = {"CO2 = CO2": "CO2(g)", "Mtg = Mtg": "Mtg(g)", "Ntg = Ntg": "Ntg(g)", "Oxg = Oxg": "Oxg(g)", "Hdg = Hdg": "Hdg(g)"}
         pool = [g for g in pool if g not in {same[t] for t in taken}]
-        family = draw(st.sampled_from(["any", "inert", "inert", "redox"]))
+        family = draw(st.sampled_from(["any", "inert", "inert", "redox", "condensable"]))
         if family == "inert":
             pool2 = [g for g in pool if g in ("CO2(g)", "H2O(g)", "Mtg(g)", "Ntg(g)", "Oxg(g)", "Hdg(g)", "H2Sg(g)")]
         elif family == "redox":
             pool2 = [g for g in pool if g in ("CO2(g)", "CH4(g)", "N2(g)", "O2(g)", "H2(g)", "H2S(g)", "NH3(g)", "H2O(g)")]
+        elif family == "condensable":
+            # gases far below their critical temperature: the cubic has three real roots at gas-like states
+            pool2 = [g for g in pool if g in ("H2O(g)", "NH3(g)", "H2S(g)", "H2Sg(g)", "CO2(g)")]
         else:
             pool2 = pool
         pool2 = pool2 or pool
         names = draw(st.lists(st.sampled_from(pool2), min_size=0 if custom else 1, max_size=5 - len(custom), unique=True))
         names = [g["name"] for g in custom] + names
     typ = draw(st.sampled_from(["P", "V"]))
-    gp = {"type": typ, "volume": draw(cg.logu(0.01, 20.0, 3))}
-    gp["temp"] = tc if draw(st.integers(0, 3)) else draw(cg.uni(0.0, 200.0, 4))
+    gp = {"type": typ}
+    gp["temp"] = tc if draw(st.integers(0, 3)) else draw(temperature())
+    ptot = draw(st.one_of(pressure(-2, 2), pressure(-2, 2), st.sampled_from([1.0, 10.0, 100.0])))
+    rtemp = draw(temperature()) if draw(st.integers(0, 5)) == 0 else None
     if typ == "P":
-        gp["pressure"] = draw(st.one_of(cg.logu(0.01, 1000.0, 4), st.sampled_from([1.0, 10.0, 100.0])))
-        if "H2O(g)" in names and gp["pressure"] < 1.5 * psat_water(tc):
+        tmax = max(tc, rtemp if rtemp is not None else tc)
+        if "H2O(g)" in names and ptot < 1.5 * psat_water(tmax):
+            # a fixed-pressure water-vapour phase below the boiling pressure would boil the solution away
             names = [n for n in names if n != "H2O(g)"] or ["CO2(g)"]
-        pmax = gp["pressure"]
-        gp["volume"] = min(gp["volume"], 5.0)
-    else:
-        pmax = 500.0
+        gp["pressure"] = ptot
+    # volume: at most ~20 mol of gas (ideal estimate), so that the aqueous phase can take it
+    vmax = min(20.0, 20.0 * 0.0820597 * (gp["temp"] + 273.15) / ptot)
+    gp["volume"] = draw(cg.logu(min(0.01, vmax / 10), vmax, 3))
+    if typ == "P":
+        gp["volume"] = max(min(gp["volume"], 5.0), min(0.05, vmax))
     gp["equilibrate"] = typ == "V" and draw(st.integers(0, 4)) == 0
+    # initial composition: integer weights (some zero); the partial pressures are shares of the target total pressure
+    w = [0 if draw(st.integers(0, 7)) == 0 else draw(st.integers(1, 20)) for _ in names]
+    if not any(w):
+        w[0] = 1
+    fill = 1.0
+    if typ == "P" and draw(st.integers(0, 3)) == 0:
+        fill = draw(cg.logu(0.003, 1.0, 3))          # less gas than the phase "wants": the phase may dissolve completely
     comps = []
-    for n in names:
-        p0 = 0.0 if draw(st.integers(0, 5)) == 0 else draw(cg.logu(max(1e-3, 1e-3 * pmax), pmax, 4))
+    for n, wi in zip(names, w):
+        p0 = float("%.4g" % (ptot * fill * wi / sum(w)))
+        if n == "H2O(g)":
+            p0 = min(p0, float("%.4g" % (0.9 * psat_water(gp["temp"]))))
         comps.append([n, p0])
     gp["comps"] = comps
     parts["gp"] = gp
+    if gp["equilibrate"]:
+        # the gas comes out of the solution: give the solution the gas-forming elements
+        have = {c[0] for c in sol["comps"]}
+        for n in names:
+            e = EXTRA_SOL.get(n)
+            if e and e not in have and draw(st.integers(0, 3)):
+                sol["comps"].append([e, draw(cg.logu(2e-5, 2e-2, 3)), ""])
+                have.add(e)
+        if "CO2(g)" in names and "C(4)" not in have and draw(st.integers(0, 2)):
+            sol["comps"].append(["C(4)", draw(cg.logu(1e-3, 0.5, 3)), ""])
     # user binary interaction parameters between distinct components
     kij = []
     if len(names) >= 2 and draw(st.integers(0, 3)) == 0:
@@ -184,9 +243,7 @@ def case_strategy(draw):
         rx = {"what": draw(st.sampled_from(["HCl", "NaOH", "NaCl", "NaHCO3"])), "moles": draw(cg.logu(1e-4, 0.05, 3)),
               "steps": draw(st.integers(1, 3))}
     parts["reaction"] = rx
-    parts["rtemp"] = draw(cg.uni(0.0, 200.0, 4)) if draw(st.integers(0, 5)) == 0 else None
-    if parts["rtemp"] is not None and typ == "P" and "H2O(g)" in names and gp["pressure"] < 1.5 * psat_water(parts["rtemp"]):
-        parts["rtemp"] = None
+    parts["rtemp"] = rtemp
     return finish(parts)
 
 
@@ -214,7 +271,9 @@ def tracked_elements(parts):
 
 def finish(parts):
     """render the input text; the case keeps the structure (for the oracle) and the text (what is run)"""
-    L = ["KNOBS", " -convergence_tolerance 1e-12", " -iterations 400"]
+    # DESIGN section 4 rule 2: the solver's own tolerance is set far below the property's; only the registered
+    # known-finding replay runs with the default KNOBS
+    L = [] if parts.get("knobs") == "default" else ["KNOBS", " -convergence_tolerance 1e-12", " -iterations 400"]
     if parts["custom"]:
         L.append("PHASES")
         for g in parts["custom"]:
@@ -276,6 +335,14 @@ def rel(a, b):
     return abs(a - b) / max(abs(a), abs(b), 1e-300)
 
 
+def stat(ctx, name, value):
+    """development statistics (largest deviation seen per relation); only dev_scan's context collects them"""
+    st_ = getattr(ctx, "stats", None)
+    if st_ is not None and value == value:
+        if value > st_.get(name, (-1.0, None))[0]:
+            st_[name] = (value, getattr(ctx, "current", None))
+
+
 def model_for(case):
     """critical constants and k_ij from the text of the database, then of the input (later definitions win)"""
     g, k = eos.parse_database(dbtext(case["db"]))
@@ -287,15 +354,20 @@ def model_for(case):
     return g, k
 
 
-def single_root_volume(M, P):
-    """molar volume of the only real root of the cubic at P, or None when the cubic has three real roots / is borderline"""
-    d = M.discriminant(P)
-    if d > -1e-9 * M.disc_scale(P):
-        return None
+OUTSIDE = ("single", "vapor")       # eos.Mixture.region values that are outside the two-phase region for certain
+
+
+def gas_root_at(M, P):
+    """(molar volume, region) of the gas-like (largest) root of the cubic at pressure P"""
     z = M.real_roots_Z(P)
-    if len(z) != 1:
-        return None
-    return z[0] * M.RT / P
+    if not z:
+        return None, "loop"
+    V = z[-1] * M.RT / P
+    return V, M.region(V)
+
+
+def in_domain_P(P):
+    return 0.01 <= P <= 1000.0
 
 
 def check_case(case, ctx):
@@ -323,15 +395,11 @@ def check_case(case, ctx):
     react = [r for r in rows if r["state"] == "react"]
     if len(isoln) != 1 or not react:
         raise Violation("rows", "expected one i_soln row and >=1 react rows, got states %r" % [r["state"] for r in rows])
-    for r in rows:
-        for k, v in r.items():
-            if isinstance(v, float) and (math.isnan(v) or math.isinf(v)):
-                raise Violation("finite", "non-finite value %r in column %s" % (v, k))
     classes = ["db=" + case["db"], "eos=" + ("PR" if pr else "ideal"), "kind=" + case["kind"], "ngas=%d" % len(names)]
     if case["custom"]:
         classes.append("custom_gases_" + ("pr" if pr else "ideal"))
-    if case.get("kij"):
-        classes.append("user_kij")
+    tc = case["sol"]["temp"] if case.get("rtemp") is None else case["rtemp"]
+    classes.append("T=%s" % ("0-25" if tc <= 25 else "25-60" if tc <= 60 else "60-100" if tc <= 100 else "100-150" if tc <= 150 else "150-200"))
     info = {"nt": False, "classes": classes}
     G = [gases_db[n] for n in names]
     if case["kind"] == "equi":
@@ -343,7 +411,18 @@ def check_case(case, ctx):
     return {"nontrivial": info["nt"], "classes": sorted(set(info["classes"]))}
 
 
+def need_finite(r, skip=()):
+    # every comparison is written "difference > tolerance => violation"; a NaN/inf would pass all of them silently,
+    # so the values the relations use must be finite numbers
+    for k, v in r.items():
+        if isinstance(v, float) and (math.isnan(v) or math.isinf(v)) and k not in skip:
+            raise Violation("finite", "non-finite value %r in column %s of a row whose gas relations are asserted" % (v, k))
+
+
 def check_equi(case, r, names, G, kij, pr, info, ctx):
+    """gases as EQUILIBRIUM_PHASES: each is a pure gas at P = 10^target (documented: "the target saturation index for a gas
+    is log10(P)", SI is based on the fugacity) => PR_P = P, PR_PHI = phi_EOS(P, T), SI = log10(phi P) while the gas is present"""
+    need_finite(r)
     Tk = r["tk"]
     if rel(Tk, case["sol"]["temp"] + 273.15) > 1e-12:
         raise Violation("temperature", "TK %r but the solution temperature is %r C" % (Tk, case["sol"]["temp"]))
@@ -359,29 +438,33 @@ def check_equi(case, r, names, G, kij, pr, info, ctx):
             if rel(pp, P) > 1e-9:
                 raise Violation("equi_pressure", "%s: PR_P %r but the target log10 P is %r (P=%r)" % (n, pp, target, P))
             M = eos.Mixture([G[i]], [1.0], Tk, kij)
-            V = single_root_volume(M, P)
-            if V is None:
-                ctx.event("three_root_skipped")
-                info["classes"].append("three_root")
+            V, reg = gas_root_at(M, P)
+            info["classes"].append("equi_region=" + reg)
+            if reg not in OUTSIDE:
+                ctx.event("two_phase_skipped")
                 continue
             lnphi = M.ln_phi(P, V)[0]
+            if not (0.0099 <= phi <= 85.5):
+                raise Violation("phi_clamp", "%s: PR_PHI %r outside the documented 0.01..85 clamp" % (n, phi))
             if not (LNPHI_LO + 2e-2 < lnphi < LNPHI_HI - 2e-2):
                 ctx.event("phi_outside_clamp")
-                if not (0.0099 <= phi <= 85.5):
-                    raise Violation("phi_clamp", "%s: PR_PHI %r outside the documented 0.01..85 clamp" % (n, phi))
                 continue
+            stat(ctx, "equi_phi", rel(phi, math.exp(lnphi)) / TOL_PHI)
             if rel(phi, math.exp(lnphi)) > TOL_PHI:
                 raise Violation("equi_phi", "%s at P=%r atm T=%r K: PR_PHI %r, Peng-Robinson gives %r (rel %.3g)" % (
                     n, P, Tk, phi, math.exp(lnphi), rel(phi, math.exp(lnphi))))
             if abs(lnphi) > 1e-3:
                 info["nt"] = True
+        elif phi != 1.0:
+            raise Violation("ideal_phi", "gas %s without critical constants has PR_PHI %r" % (n, phi))
         want = target + lnphi / math.log(10.0)
         if left > 0:
             present += 1
-            if abs(si - want) > 1e-7:
+            stat(ctx, "equi_fug", abs(si - want) / (TOL_FUG / math.log(10.0)))
+            if abs(si - want) > TOL_FUG / math.log(10.0):
                 raise Violation("equi_fugacity", "%s present (%r mol): SI %r but log10(phi P) = %r" % (n, left, si, want))
         else:
-            if si > want + 1e-7:
+            if si > want + TOL_FUG / math.log(10.0):
                 raise Violation("equi_fugacity", "%s exhausted but SI %r exceeds log10(phi P) = %r" % (n, si, want))
             info["classes"].append("equi_exhausted")
     if present >= 2:
@@ -400,40 +483,44 @@ def element_total(case, names, moles):
 
 def check_gas_row(case, r, r0, names, G, kij, pr, info, ctx):
     gp = case["gp"]
+    N = len(names)
+    n = [r["n%d" % i] for i in range(N)]
+    ntot = math.fsum(x for x in n if x == x)
+    P, Vm = r["gas_p"], r["gas_vm"]
+    fixedP = gp["type"] == "P"
+    # a fixed-pressure phase "exists" when it holds gas (the engine reports P = 0 and no moles otherwise); a fixed-volume
+    # phase holds gas whenever its components are in the system
+    exists = ntot >= 1e-12 and P > 0
+    need_finite(r, () if exists else ("gas_vm",))     # GAS_VM of a phase without gas is V / 0 mol: no relation uses it
     Tk = r["tk"]
     want_t = (case["rtemp"] if case["rtemp"] is not None else case["sol"]["temp"]) + 273.15
     if rel(Tk, want_t) > 1e-12:
         raise Violation("temperature", "TK %r, input says %r" % (Tk, want_t))
-    n = [r["n%d" % i] for i in range(len(names))]
     if any(x < 0 for x in n):
         raise Violation("moles", "negative gas moles %r" % n)
-    ntot = math.fsum(n)
-    P, Vm = r["gas_p"], r["gas_vm"]
-    si = [r["s%d" % i] for i in range(len(names))]
-    phi = [r["f%d" % i] for i in range(len(names))]
-    fixedP = gp["type"] == "P"
+    si = [r["s%d" % i] for i in range(N)]
+    phi = [r["f%d" % i] for i in range(N)]
     info["classes"].append("type=" + gp["type"])
-    if gp["equilibrate"]:
-        info["classes"].append("equilibrate")
-    exists = ntot >= 1e-12 and P > 0
-    # ---------------------------------------------------------------- (6) initial moles through the EOS (element totals)
+    info["classes"].append("equilibrate" if gp["equilibrate"] else "initial_p")
+    # ---------------------------------------------------------------- initial moles through the EOS (element totals)
     if not gp["equilibrate"]:
         check_initial(case, r, r0, names, G, kij, pr, info, ctx)
     if not exists:
         info["classes"].append("gas_absent")
         if fixedP:
-            # a fixed-pressure phase that does not exist: the equilibrium partial pressures cannot reach P
+            # a fixed-pressure phase that does not exist: the equilibrium partial pressures do not reach P
             s = 0.0
-            for i in range(len(names)):
+            for i in range(N):
                 if si[i] > -99:
                     if not (0.0099 <= phi[i] <= 85.5):
                         raise Violation("phi_clamp", "%s: PR_PHI %r outside 0.01..85" % (names[i], phi[i]))
                     s += 10.0 ** si[i] / (phi[i] if pr else 1.0)
-            if s > gp["pressure"] * (1 + 1e-6):
+            stat(ctx, "absent_sum", (s / gp["pressure"] - 1.0) / TOL_EXIST)
+            if s > gp["pressure"] * (1 + TOL_EXIST):
                 raise Violation("existence", "no gas phase, but sum of equilibrium partial pressures %r > fixed P %r" % (s, gp["pressure"]))
+            info["classes"].append("absent_checked")
         return
-    info["classes"].append("P_decade=%d" % int(math.floor(math.log10(P))))
-    # ---------------------------------------------------------------- volume / pressure bookkeeping
+    # ---------------------------------------------------------------- volume / pressure bookkeeping (reported quantities)
     if fixedP:
         if rel(P, gp["pressure"]) > 1e-12:
             raise Violation("fixed_pressure", "GAS_P %r differs from the fixed pressure %r" % (P, gp["pressure"]))
@@ -442,73 +529,128 @@ def check_gas_row(case, r, r0, names, G, kij, pr, info, ctx):
         V = gp["volume"]
         if rel(r["volume"], V) > 1e-12:
             raise Violation("fixed_volume", "-gases volume %r, fixed volume %r" % (r["volume"], V))
-    if rel(Vm * ntot, V) > 1e-9:
-        raise Violation("molar_volume", "GAS_VM %r * total moles %r != volume %r" % (Vm, ntot, V))
-    if rel(r["pressure"], P) > 1e-12 or rel(r["total mol"], ntot) > 1e-9:
+    stat(ctx, "cols_P", rel(r["pressure"], P))
+    stat(ctx, "cols_n", rel(r["total mol"], ntot))
+    if rel(r["pressure"], P) > 1e-9 or rel(r["total mol"], ntot) > 1e-9:
         raise Violation("gases_columns", "-gases pressure/total mol %r/%r vs GAS_P %r, sum GAS %r" % (r["pressure"], r["total mol"], P, ntot))
+    if not in_domain_P(P):
+        # the property quantifies over 0.01..1000 atm
+        ctx.event("P_outside_0.01_1000_skipped")
+        info["classes"].append("P_out_of_domain")
+        return
+    info["classes"].append("P_decade=%d" % int(math.floor(math.log10(P))))
+    reg = None
+    slack = MOLE_SLACK_KGW * max(1.0, case["sol"].get("water", 1.0))
     x = [v / ntot for v in n]
-    live = [i for i in range(len(names)) if n[i] > 0]
+    live = [i for i in range(N) if n[i] > MOLE_FLOOR]
+    Vn = V / ntot                       # molar volume from the reported volume and moles
     # ---------------------------------------------------------------- (1) partial pressures
     if pr:
-        pp = [r["p%d" % i] for i in range(len(names))]
+        pp = [r["p%d" % i] for i in range(N)]
         for i in live:
-            if abs(pp[i] - x[i] * P) > TOL_PSUM * P:
+            stat(ctx, "partial", abs(pp[i] - x[i] * P) / (TOL_PSUM * P + slack / ntot * P))
+            if abs(pp[i] - x[i] * P) > TOL_PSUM * P + slack / ntot * P:
                 raise Violation("partial_pressure", "%s: PR_P %r but x*P = %r (P=%r)" % (names[i], pp[i], x[i] * P, P))
-        if abs(math.fsum(pp[i] for i in live) - P) > TOL_PSUM * P * len(live):
+        stat(ctx, "partial_sum", abs(math.fsum(pp[i] for i in live) - P) / P)
+        if abs(math.fsum(pp[i] for i in live) - P) > TOL_PSUM_EXACT * P * len(live):
             raise Violation("partial_pressure_sum", "sum of PR_P %r != P %r" % (math.fsum(pp[i] for i in live), P))
     # ---------------------------------------------------------------- (2,3) equation of state and fugacity coefficients
-    skipped = False
     if not pr:
-        if rel(P * V, ntot * eos.R_LATM * Tk) > TOL_EOS:
+        stat(ctx, "ideal", rel(P * V, ntot * eos.R_LATM * Tk) / (TOL_EOS + slack / ntot))
+        if rel(P * V, ntot * eos.R_LATM * Tk) > TOL_EOS + slack / ntot:
             raise Violation("ideal_gas", "P V = %r but n R T = %r (P=%r V=%r n=%r T=%r)" % (P * V, ntot * eos.R_LATM * Tk, P, V, ntot, Tk))
+        stat(ctx, "ideal_vm", rel(Vm, Vn))
+        if rel(Vm, Vn) > TOL_EOS:
+            raise Violation("molar_volume", "GAS_VM %r but volume / moles = %r" % (Vm, Vn))
         for i in live:
             if phi[i] != 1.0:
                 raise Violation("ideal_phi", "ideal gas %s has PR_PHI %r" % (names[i], phi[i]))
-        lnphi = [0.0] * len(names)
+        info["classes"].append("ideal_checked")
     else:
         M = eos.Mixture([G[i] for i in live], [n[i] for i in live], Tk, kij)
-        Pc = M.pressure(Vm) if Vm > M.bm else -1.0
-        if Pc <= 0:
-            skipped = True
-            ctx.event("nonpositive_eos_pressure_skipped")
-        elif M.discriminant(Pc) > -1e-9 * M.disc_scale(Pc) or M.discriminant(P) > -1e-9 * M.disc_scale(P):
-            skipped = True
-            ctx.event("three_root_skipped")
-            info["classes"].append("three_root")
-        lnphi = [None] * len(names)
-        if not skipped:
-            if rel(Pc, P) > TOL_EOS:
-                raise Violation("peng_robinson", "reported P=%r Vm=%r T=%r x=%r: the Peng-Robinson pressure at this molar volume is %r (rel %.3g)" % (
-                    P, Vm, Tk, [x[i] for i in live], Pc, rel(Pc, P)))
-            lp = M.ln_phi(P, Vm)
-            if lp is None:
-                raise Violation("peng_robinson", "Z <= B at the reported state P=%r Vm=%r" % (P, Vm))
+        reg = M.region(Vn)
+        src = set()
+        for i in live:
+            for j in live:
+                if i < j:
+                    if (names[i], names[j]) in kij:
+                        src.add("kij=user" if any({a, b_} == {names[i], names[j]} for a, b_, _ in case.get("kij") or []) else "kij=database")
+                    elif eos.kij_lookup(names[i], names[j], {}) != 0.0:
+                        src.add("kij=documented_builtin")
+        info["classes"] += sorted(src)
+        if not math.fsum(pp[i] for i in live) > 0:
+            raise Violation("partial_pressure_sum", "gas phase with %r mol but all PR_P are zero" % ntot)
+        info["classes"].append("region=" + reg)
+        for i in live:
+            if not (0.0099 <= phi[i] <= 85.5):
+                raise Violation("phi_clamp", "%s: PR_PHI %r outside the documented 0.01..85 clamp" % (names[i], phi[i]))
+        if reg not in OUTSIDE:
+            ctx.event("two_phase_skipped")
+        else:
+            Pc = M.pressure(Vn)
+            stat(ctx, "pr_P", rel(Pc, P) / (TOL_EOS + slack / ntot))
+            if rel(Pc, P) > TOL_EOS + slack / ntot:
+                raise Violation("peng_robinson", "reported P=%r V=%r n=%r (V/n=%r) T=%r x=%r: the Peng-Robinson pressure of this state is %r (rel %.3g, region %s)" % (
+                    P, V, ntot, Vn, Tk, [x[i] for i in live], Pc, rel(Pc, P), reg))
+            stat(ctx, "pr_vm", rel(Vm, Vn))
+            if rel(Vm, Vn) > TOL_EOS:
+                raise Violation("molar_volume", "GAS_VM %r but volume / moles = %r" % (Vm, Vn))
+            # PR_PHI belongs to the composition of the engine's last evaluation of the EOS, which it reports as
+            # PR_P(i) = x_i P; that composition and the moles of the final Newton step differ by the size of that step.
+            # The 1e-6 comparison is therefore made at x_i = PR_P(i) / P and the root of the cubic at the reported P
+            # next to the reported V/n (P-V-n consistency itself is the 1e-4 assertion above).
+            M2 = eos.Mixture([G[i] for i in live], [pp[i] for i in live], Tk, kij)
+            z2 = M2.real_roots_Z(P)
+            if not z2:
+                raise Violation("peng_robinson", "no admissible root of the cubic at the reported P=%r" % P)
+            V2 = min((zz * M2.RT / P for zz in z2), key=lambda v: abs(v - Vn))
+            stat(ctx, "pr_v2", rel(V2, Vn) / (TOL_EOS + slack / ntot))
+            if rel(V2, Vn) > TOL_EOS + slack / ntot:
+                raise Violation("peng_robinson", "the cubic at the reported P=%r has its nearest root at %r L/mol, reported V/n = %r" % (P, V2, Vn))
+            lp = M2.ln_phi(P, V2)
             for k, i in enumerate(live):
-                lnphi[i] = lp[k]
-                if not (0.0099 <= phi[i] <= 85.5):
-                    raise Violation("phi_clamp", "%s: PR_PHI %r outside the documented 0.01..85 clamp" % (names[i], phi[i]))
                 if not (LNPHI_LO + 2e-2 < lp[k] < LNPHI_HI - 2e-2):
                     ctx.event("phi_outside_clamp")
                     info["classes"].append("phi_clamped")
                     continue
+                stat(ctx, "pr_phi", rel(phi[i], math.exp(lp[k])) / TOL_PHI)
                 if rel(phi[i], math.exp(lp[k])) > TOL_PHI:
-                    raise Violation("phi", "%s in %r x=%r at P=%r Vm=%r T=%r: PR_PHI %r, Peng-Robinson mixture expression gives %r (rel %.3g)" % (
-                        names[i], [names[j] for j in live], [x[j] for j in live], P, Vm, Tk, phi[i], math.exp(lp[k]), rel(phi[i], math.exp(lp[k]))))
+                    raise Violation("phi", "%s in %r x=%r at P=%r V/n=%r T=%r: PR_PHI %r, Peng-Robinson mixture expression gives %r (rel %.3g)" % (
+                        names[i], [names[j] for j in live], M2.x, P, V2, Tk, phi[i], math.exp(lp[k]), rel(phi[i], math.exp(lp[k]))))
                 if abs(lp[k]) > 1e-3:
                     info["nt"] = True
+                    info["classes"].append("pr_nonideal")
             info["classes"].append("pr_checked")
     # ---------------------------------------------------------------- (4) fugacity = 10^SI, (5) fixed-pressure sum
     ssum = 0.0
+    if pr and reg == "loop" and not case.get("assert_inside_spinodal"):
+        # Peng-Robinson pressure of the reported (V/n, T, x) is <= 0: deep inside the two-phase region, where the engine
+        # substitutes another molar volume; phi and hence "fugacity" have no EOS meaning there (see known/ replay)
+        ctx.event("inside_spinodal_fugacity_skipped")
+        info["classes"].append("inside_spinodal")
+        return
+    peq = {}
     for i in live:
         if si[i] <= -99:
-            raise Violation("fugacity", "%s has %r mol in the gas but no saturation index" % (names[i], n[i]))
-        peq = 10.0 ** si[i] / phi[i]
-        ssum += peq
-        if abs(peq - x[i] * P) > TOL_FUG * x[i] * P + 1e-12 * P:
-            raise Violation("fugacity", "%s: 10^SI/phi = %r but partial pressure x*P = %r (SI=%r phi=%r x=%r P=%r)" % (
-                names[i], peq, x[i] * P, si[i], phi[i], x[i], P))
-    if fixedP and abs(ssum - P) > 1e-6 * P:
-        raise Violation("existence", "gas phase exists but equilibrium partial pressures sum to %r, fixed P %r" % (ssum, P))
+            if x[i] > 1e-12:
+                raise Violation("fugacity", "%s has %r mol in the gas but no saturation index" % (names[i], n[i]))
+            continue
+        peq[i] = 10.0 ** si[i] / phi[i]             # partial pressure whose fugacity phi_i p_i equals 10^SI_i
+    ssum = math.fsum(peq.values())
+    if not ssum > 0:
+        raise Violation("fugacity", "gas phase with %r mol but no component has a saturation index" % ntot)
+    # phi_i x_i P = 10^SI_i for every i  <=>  (a) the shares x_i equal the shares of 10^SI_i / phi_i  and  (b) their sum is P.
+    # (a) involves only quantities of one solver iterate; (b) compares them with the total pressure (see MOLE_SLACK_KGW)
+    for i in peq:
+        stat(ctx, "fug_share", abs(peq[i] / ssum - x[i]) / TOL_FUG)
+        if abs(peq[i] / ssum - x[i]) > TOL_FUG:
+            raise Violation("fugacity", "%s: mole fraction %r, but its share of the equilibrium partial pressures 10^SI/phi is %r (SI=%r phi=%r)" % (
+                names[i], x[i], peq[i] / ssum, si[i], phi[i]))
+    allowed = TOL_EXIST * P if fixedP else TOL_FUG * P + slack / ntot * P      # a fixed pressure is an input, not an iterate
+    stat(ctx, "fug_sum_P" if fixedP else "fug_sum_V", abs(ssum - P) / allowed)
+    if abs(ssum - P) > allowed:
+        raise Violation("existence" if fixedP else "fugacity", "sum over components of 10^SI/phi = %r but the total pressure is %r (moles %r, SI %r, phi %r)" % (
+            ssum, P, n, si, phi))
     if len(live) >= 2:
         info["nt"] = True
         info["classes"].append("multi_gas")
@@ -519,7 +661,7 @@ def check_initial(case, r, r0, names, G, kij, pr, info, ctx):
     gp = case["gp"]
     p0 = [c[1] for c in gp["comps"]]
     Ptot = math.fsum(p0)
-    if Ptot <= 0:
+    if Ptot <= 0 or not in_domain_P(Ptot):
         return
     Tg = gp["temp"] + 273.15
     if not pr:
@@ -527,9 +669,9 @@ def check_initial(case, r, r0, names, G, kij, pr, info, ctx):
     else:
         idx = [i for i in range(len(names)) if p0[i] > 0]
         M = eos.Mixture([G[i] for i in idx], [p0[i] for i in idx], Tg, kij)
-        V = single_root_volume(M, Ptot)
-        if V is None:
-            ctx.event("initial_three_root_skipped")
+        V, reg = gas_root_at(M, Ptot)
+        if reg not in OUTSIDE:
+            ctx.event("initial_two_phase_skipped")
             return
         n0 = [0.0] * len(names)
         for k, i in enumerate(idx):
@@ -545,6 +687,7 @@ def check_initial(case, r, r0, names, G, kij, pr, info, ctx):
         if e in other or w <= 0:
             continue
         got = r["sys_" + e] - r0["sys_" + e]
+        stat(ctx, "initial", abs(got - w) / w if abs(r0["sys_" + e]) < 1e3 * w else 0.0)
         if abs(got - w) > TOL_EOS * w + 1e-9 * abs(r0["sys_" + e]) + 1e-14:
             raise Violation("initial_moles", "element %s: system total rose by %r mol when the gas phase was added, EOS (%s) at sum p=%r atm, T=%r K, V=%r L gives %r" % (
                 e, got, "PR" if pr else "ideal", Ptot, Tg, gp["volume"], w))
@@ -557,35 +700,52 @@ def run(ctx):
     ctx.hyp(case_strategy(), lambda c: check_case(c, ctx), BUDGET[ctx.tier], "gas")
 
 
-def debug_discards(n=300, seed_=5):
-    """development helper: error texts of discarded cases, class histogram"""
-    from hypothesis import given, settings, seed
+def dev_scan(n=300, seed_=5, show=3):
+    """development helper: runs n generated cases without stopping at violations; prints error texts of
+    discarded cases, violations per oracle (first `show` messages each) and the class histogram"""
+    from hypothesis import given, settings, seed, HealthCheck
     import collections
     cnt = collections.Counter()
     cls = collections.Counter()
+    vio = collections.defaultdict(list)
 
     class C:
+        stats = {}
+        current = None
+
         def event(self, name, n=1):
             cls["ev:" + name] += n
     c = C()
 
-    @settings(max_examples=n, database=None, deadline=None)
+    @settings(max_examples=n, database=None, deadline=None, suppress_health_check=list(HealthCheck))
     @seed(seed_)
     @given(case_strategy())
     def t(case):
+        cls["TOTAL"] += 1
+        c.current = case
         try:
             out = check_case(case, c)
             for k in out["classes"]:
                 cls[k] += 1
             cls["NT"] += out["nontrivial"]
             cls["ALL"] += 1
-        except Discard:
+        except Violation as v:
+            vio[v.oracle].append((v.msg, case))
+        except Discard as d:
+            cls["DISCARD"] += 1
             I = lib.fresh(case["db"])
             I.run_string(case["input"])
-            cnt[(case["db"], case["kind"], I.errors().strip().split("\n")[0][:150])] += 1
+            cnt[(d.why, case["db"], case["kind"], I.errors().strip().split("\n")[0][:150])] += 1
             I.close()
     t()
     for k, v in cnt.most_common(30):
         print(v, k)
     for k, v in sorted(cls.items()):
         print("  ", k, v)
+    for k, v in vio.items():
+        print("VIOLATION", k, len(v))
+        for m, case in v[:show]:
+            print("   ", m[:600])
+    for k, v in sorted(c.stats.items()):
+        print("   maxdev %-20s %.3g" % (k, v[0]))
+    return vio, c.stats
